@@ -82,9 +82,16 @@ def check(chk: Check) -> None:
     for integ in ("generic", "rdflib"):
         for physical in (1, 2, 3):
             arity = 3 if physical == 1 else 4
-            stmts = [tuple(C.base("a", arity)), tuple(C.base("b", arity))]
+            plain_stmts = [tuple(C.base("a", arity)), tuple(C.base("b", arity))]
             vias = ("sink", "grouped2", "generator") if integ == "generic" else ("store", "grouped2", "generator")
-            for via, fsz, preset in [(v, f_, (8, 8, 8)) for v in vias for f_ in (250, 2)] + [(vias[0], 250, (8, 0, 8)), (vias[0], 250, (16, 2, 8))]:
+            # "chain": the second sink's first IRI is an IRI of the first sink's last statement (object / last term), so
+            # the declarations of the second sink fall between two uses of one IRI
+            for via, fsz, preset, chain in [(v, f_, (8, 8, 8), None) for v in vias for f_ in (250, 2)] + [(vias[0], 250, (8, 0, 8), None), (vias[0], 250, (16, 2, 8), None), ("grouped2", 250, (8, 8, 8), 2), ("grouped2", 250, (8, 8, 8), -1), ("grouped2", 250, (8, 0, 8), 2)]:
+                stmts = plain_stmts
+                if chain is not None:
+                    b_ = list(C.base("b", arity))
+                    b_[0] = plain_stmts[0][chain]
+                    stmts = [plain_stmts[0], tuple(b_)]
 
                 def scenario(it: Interp) -> Any:
                     k = K.Kit(it)
@@ -121,7 +128,7 @@ def check(chk: Check) -> None:
                         out["reader_error"] = (it.exc_class_name(pr.exc), str(pr.site))
                     return out
 
-                inst = f"{integ} physical={physical} via={via} frame_size={fsz}" + (f" preset={preset}" if preset != (8, 8, 8) else "")
+                inst = f"{integ} physical={physical} via={via} frame_size={fsz}" + (f" preset={preset}" if preset != (8, 8, 8) else "") + (f" second sink starts with term {chain} of the first sink's statement" if chain is not None else "")
                 for it, res in explore(prog, scenario, max_paths=16, generic_strings=True):
                     chk.paths += 1
                     chk.saw_functions(it)
